@@ -51,6 +51,8 @@ var c14Ops = []string{
 	// an id with a slash in it, written into the path as it is (the Go client does that): the
 	// request names no message, with or without a base path
 	"rest.get no/such", "web.message no/such", "client.GetMessageSource no/such",
+	// an id that ends in the id of a stored message behind an escaped slash names no message
+	"rest.get x%2F#1", "rest.seen x%2F#1", "rest.delete x%2F#1", "client.DeleteMessage x%2F#1", "web.source x%2F#1",
 	// a message whose received date lies before every earlier one's (straight into the store):
 	// listings and 'latest' follow arrival order, dates are metadata.  (Must stay the last op.)
 	"deliver-backdated",
@@ -149,6 +151,13 @@ func c14Exec(c *fw.Ctx, cas c14Case, from int) (key string, extend, nontrivial b
 			return "nope", nil, "unknown-id"
 		case "no/such":
 			return "no/such", nil, "unknown-id"
+		}
+		if strings.HasPrefix(ref, "x%2F#") {
+			k := int(ref[5] - '0')
+			if k > len(ids) {
+				return "x%2Fnever", nil, "unknown-id"
+			}
+			return "x%2F" + ids[k-1], nil, "unknown-id"
 		}
 		k := int(ref[1] - '0')
 		if k > len(ids) {
